@@ -335,6 +335,10 @@ def build_templates():
     TT["unyt_array(x)"] = T(lambda A, p: unyt.unyt_array(A["x"]), ("x",), cat="copy")
     TT["unyt_array(x,u)"] = T(lambda A, p: unyt.unyt_array(A["x"], p["u"]), ("x",), cat="copy", params=("u",))
     TT["unyt_array([x,y])"] = T(lambda A, p: unyt.unyt_array([A["x"], A["y"]]), ("x", "y"), cat="copy")
+    TT["unyt_array(x,u,bypass)"] = T(lambda A, p: unyt.unyt_array(A["x"], uo.Unit(p["u"], registry=A["x"].units.registry),
+                                                                  bypass_validation=True), ("x",), cat="copy", params=("u",))
+    TT["unyt_array(x,yu,bypass)"] = T(lambda A, p: type(A["x"])(A["x"], A["y"].units, bypass_validation=True), ("x", "y"), cat="copy")
+    TT["unyt_quantity(x)"] = T(lambda A, p: unyt.unyt_quantity(A["x"], p["u"]), ("x",), cat="copy", params=("u",))
     # every handler in the live table, called as f(x) and f(x, y): most signatures accept that, the rest raise
     # TypeError before doing anything - either way the operands must come out untouched.  (Handlers that are
     # in place by contract have their own templates below; savetxt writes a file.)
